@@ -41,7 +41,7 @@ RULE = ('corpus (witness cases of F18 and F-C03-fuse) first; then random pipelin
         'case: the sequential baseline, up to 5 other groupings of the same operator list into transforms (builder / same-name '
         'chain = fuse / new-name chain = stage, including refused ones and the all-chained one), num_threads in {1,2,3,8} on real OS threads and num_threads in {2,3} under the deterministic scheduler (seeded PCT / uniform-random schedules, deadlocks reported), shard '
         'counts 1..5 (via make(shard=) and via data_source.shard) + merge_states, and run_pipeline_interleaved in process (two '
-        'groupings). non-trivial = at least 2 input elements, at least 2 items, and some strategy other than the baseline ran '
+        'groupings); plus directed cases every run: (a) a read-modify-write aggregate (update pre-empted between read and write: scheduler yield point / 1 ms sleep) in an UPSTREAM stage with num_threads 2,3,8 downstream on OS threads and 6 (thorough 30) seeded schedules per case under the deterministic scheduler; (b) aggregations in 2-3 named stages with the shard states handed to merge_states as list / generator / iterator, with and without strict_states_cnt, by the plain and the AGGREGATE-mode runner. non-trivial = at least 2 input elements, at least 2 items, and some strategy other than the baseline ran '
         'without error; distinct = distinct canonical case JSON')
 
 TIMEOUT = float(os.environ.get('C03_TIMEOUT', '20'))
@@ -92,7 +92,7 @@ def gen_items(rng, kind):
         items.append({'op': 'rebatch', 'n': rng.choice([1, 2, 2, 3, 5])})
         rebatched = True
       else:
-        items.append({'agg': rng.choice(['moments', 'moments', 'collect'])})
+        items.append({'agg': rng.choice(['moments', 'moments', 'collect', 'rmw'])})
     else:
       if r < 0.35:
         items.append({'op': 'apply', 'fn': rng.choice(APPLY_S)})
@@ -102,7 +102,7 @@ def gen_items(rng, kind):
         items.append({'op': 'rebatch', 'n': rng.choice([1, 2, 2, 3, 5])})
         rebatched = True
       else:
-        items.append({'agg': 'moments' if (rebatched and rng.random() < 0.6) else 'collect'})
+        items.append({'agg': 'moments' if (rebatched and rng.random() < 0.6) else rng.choice(['collect', 'collect', 'rmw'])})
   return items
 
 
@@ -118,6 +118,13 @@ def gen_data(rng, kind):
       total += s
     return data
   return [[[rng.randrange(-3, 10)]] for _ in range(rng.choice([0, 1, 2, 3, 5, 7, 9, 12]))]
+
+
+def merge_variant(rng, k):
+  """how the shard states reach merge_states: a list, a one-shot generator (what the orchestration passes) or an
+  iterator; with / without strict_states_cnt; merged by the plain runner or by make(mode=AGGREGATE)"""
+  return dict(states_as=['list', 'gen', 'iter'][k % 3] if k else rng.choice(['list', 'gen', 'iter']),
+              strict=rng.random() < 0.5, runner=rng.choice(['default', 'default', 'aggregate']))
 
 
 def strategies_for(rng, items, src, quick=True):
@@ -144,9 +151,11 @@ def strategies_for(rng, items, src, quick=True):
     sts.append(dict(s='threads', cuts=rng.choice(valid_alt), n=rng.choice([2, 3])))
   if src != 'plain':
     for k in (1, 2, 3, 4, 5):
-      sts.append(dict(s='shards', cuts=bc, k=k, via='source' if (k + len(items)) % 2 else 'make'))
+      sts.append(dict(s='shards', cuts=bc, k=k, via='source' if (k + len(items)) % 2 else 'make',
+                      **merge_variant(rng, k)))
     if valid_alt:
-      sts.append(dict(s='shards', cuts=rng.choice(valid_alt), k=rng.choice([2, 3]), via=rng.choice(['make', 'source'])))
+      sts.append(dict(s='shards', cuts=rng.choice(valid_alt), k=rng.choice([2, 3]), via=rng.choice(['make', 'source']),
+                      **merge_variant(rng, 0)))
   # the same threads under the deterministic scheduler (seeded schedules, PCT and uniform random)
   for j in range(2 if quick else 4):
     sts.append(dict(s='sched', cuts=bc, n=rng.choice([2, 3]), chooser=['pct', 'random'][j % 2],
@@ -168,8 +177,56 @@ def gen_random(ctx):
                strategies=strategies_for(rng, items, src, ctx.quick))
 
 
+def gen_directed(ctx):
+  """Configurations a random draw reaches too rarely.
+  (a) upstream stage with a read-modify-write aggregate, downstream stage with several worker threads pulling from
+      the upstream stage iterator: OS threads (the aggregate's update sleeps 1 ms between read and write) and seeded
+      schedules of the deterministic scheduler (the update is pre-empted at a yield point) — a lost update is then a
+      concrete, replayable schedule;
+  (b) aggregations in two or three named stages, shard states merged from a list / generator / iterator, with and
+      without strict_states_cnt, by the plain and by the AGGREGATE-mode runner."""
+  rng = ctx.rng
+  nseeds = 6 if ctx.quick else 30
+  for kind, tail in (('scalar', [{'op': 'apply', 'fn': 'inc'}]), ('dict', [{'op': 'apply', 'fn': 'dbl'}, {'agg': 'moments'}]),
+                     ('scalar', [{'op': 'apply', 'fn': 'dbl'}, {'agg': 'rmw'}, {'op': 'apply', 'fn': 'neg'}])):
+    for rep in range(2 if ctx.quick else 6):
+      n = rng.choice([6, 8, 10, 12])
+      data = ([[[rng.randrange(0, 9)]] for _ in range(n)] if kind == 'scalar' else
+              [[[rng.randrange(0, 9), rng.randrange(0, 9)] for _ in range(rng.choice([1, 2]))] for _ in range(n)])
+      head = [{'agg': 'rmw'}] if rep % 2 == 0 else [{'op': 'apply', 'fn': 'inc'}, {'agg': 'rmw'}]
+      items = head + tail
+      bc = base_cuts(items)
+      sts = [dict(s='seq', cuts=bc)]
+      sts += [dict(s='threads', cuts=bc, n=m) for m in (2, 3, 8)]
+      sts += [dict(s='sched', cuts=bc, n=rng.choice([2, 3, 4]), chooser=['random', 'pct'][j % 2], seed=rng.randrange(10**6))
+              for j in range(nseeds)]
+      yield dict(kind=kind, data=data, items=items, src=['plain', 'seq', 'rr'][rep % 3], strategies=sts)
+  shapes = [[{'agg': 'collect'}, {'op': 'apply', 'fn': 'inc'}, {'agg': 'moments'}],
+            [{'op': 'apply', 'fn': 'dbl'}, {'agg': 'moments'}, {'op': 'apply', 'fn': 'inc'}, {'agg': 'collect'},
+             {'op': 'apply', 'fn': 'neg'}, {'agg': 'collect'}],
+            [{'agg': 'moments'}, {'agg': 'collect'}, {'op': 'apply', 'fn': 'sq'}, {'agg': 'moments'}]]
+  for items in shapes:
+    for src in ('seq', 'rr'):
+      data = [[[rng.randrange(-3, 10), rng.randrange(-3, 10)] for _ in range(rng.choice([1, 2, 3]))]
+              for _ in range(rng.choice([3, 5, 7]))]
+      bc = base_cuts(items)
+      sts = [dict(s='seq', cuts=bc)]
+      for how in ('list', 'gen', 'iter'):
+        for strict in (False, True):
+          k = rng.choice([1, 2, 3, 4])
+          sts.append(dict(s='shards', cuts=bc, k=k, via=rng.choice(['make', 'source']), states_as=how, strict=strict,
+                          runner='aggregate' if (k + strict) % 2 else 'default'))
+      yield dict(kind='dict', data=data, items=items, src=src, strategies=sts)
+
+
 def has_rebatch(case):
   return any(it.get('op') == 'rebatch' for it in case['items'])
+
+
+def upstream_agg(items, cuts):
+  """a read-modify-write aggregate sits in a stage that is not the last one"""
+  stage = L.stage_index_of_items(items, cuts)
+  return any(it.get('agg') == 'rmw' and stage[i] < stage[-1] for i, it in enumerate(items))
 
 
 def filter_first(items, cuts):
@@ -192,6 +249,13 @@ def gen_cases(ctx):
       for st in case['strategies']:
         ctx.count('strategy', st['s'] + (':' + st['via'] if st['s'] == 'shards' else ''))
         ctx.count('stages', 1 + st['cuts'].count('c'))
+        if st['s'] == 'shards':
+          ctx.count('merge_states', f"{st.get('states_as', 'list')}{'+strict' if st.get('strict') else ''}/{st.get('runner', 'default')}")
+          nagg_stages = len({sidx for sidx, it in zip(L.stage_index_of_items(case['items'], st['cuts']), case['items']) if 'agg' in it})
+          if nagg_stages >= 2 and st.get('states_as', 'list') != 'list':
+            ctx.count('class', 'two aggregating stages, states as generator/iterator')
+        if st['s'] in ('threads', 'sched') and st['n'] >= 2 and upstream_agg(case['items'], st['cuts']):
+          ctx.count('class', f"upstream aggregate, downstream threads ({st['s']})")
         if 'f' in st['cuts']:
           ctx.count('grouping', 'uses _chain_and_fuse')
         if not valid_cuts(case['items'], st['cuts']):
@@ -200,16 +264,19 @@ def gen_cases(ctx):
         ctx.count('class', 're-batching pipeline')
       yield case
   yield from counted(ctx.corpus())
+  yield from counted(gen_directed(ctx))
   yield from counted(gen_random(ctx))
 
 
 def extra(ctx):
   from harness.core import InfraError
   need = {'strategy': ['seq', 'threads', 'sched', 'shards:make', 'shards:source', 'interleaved'],
-          'item': ['apply', 'assign', 'filter', 'rebatch', 'agg:moments', 'agg:collect'],
+          'item': ['apply', 'assign', 'filter', 'rebatch', 'agg:moments', 'agg:collect', 'agg:rmw'],
           'src': ['seq', 'rr', 'plain'], 'kind': ['dict', 'scalar'],
           'grouping': ['uses _chain_and_fuse', 'refused (function behind aggregation)'],
-          'class': ['re-batching pipeline']}
+          'class': ['re-batching pipeline', 'two aggregating stages, states as generator/iterator',
+                    'upstream aggregate, downstream threads (threads)', 'upstream aggregate, downstream threads (sched)'],
+          'merge_states': ['list/default', 'gen/default', 'iter/default', 'gen+strict/default', 'gen/aggregate']}
   missing = [f'{k}:{v}' for k, vs in need.items() for v in vs if v not in ctx.hist.get(k, {})]
   if missing:
     raise InfraError(f'generator missed promised classes: {missing}')
@@ -242,7 +309,7 @@ def run_impl(case):
 # ------------------------------------------------------------------ oracle (the property, on the real outputs)
 
 def tag(st):
-  extra_ = ''.join(f' {k}={st[k]}' for k in ('n', 'k', 'via', 'chooser', 'seed') if k in st)
+  extra_ = ''.join(f' {k}={st[k]}' for k in ('n', 'k', 'via', 'chooser', 'seed', 'states_as', 'strict', 'runner') if k in st)
   return f"[{st['s']} cuts={''.join(st['cuts']) or '-'}{extra_}]"
 
 
@@ -335,7 +402,7 @@ def oracle(case, obs):
   return f'{tag(st)} {why}'
 
 
-_TAG = re.compile(r'^\[(\w+) cuts=([bfc-]*)(?: n=(\d+))?(?: k=(\d+))?(?: via=(\w+))?(?: chooser=\w+)?(?: seed=\d+)?\] (.*)$', re.S)
+_TAG = re.compile(r'^\[(\w+) cuts=([bfc-]*)((?: \w+=\w+)*)\] (.*)$', re.S)
 
 
 def finding(case, what):
@@ -343,11 +410,10 @@ def finding(case, what):
   if not m:
     return None
   st = dict(s=m.group(1), cuts=[] if m.group(2) == '-' else list(m.group(2)))
-  if m.group(3):
-    st['n'] = int(m.group(3))
-  if m.group(4):
-    st['k'] = int(m.group(4))
-  return classify(case, st, m.group(6))
+  for kv in m.group(3).split():
+    k, v = kv.split('=')
+    st[k] = int(v) if v.isdigit() else v
+  return classify(case, st, m.group(4))
 
 
 def nontrivial(case, obs):
@@ -368,7 +434,8 @@ def model_requests(case):
   reqs = []
   for cuts, r in by_cuts.items():
     reqs.append(dict(model='strategy', width=width, data=case['data'],
-                     transforms=[dict(attach=a, items=its) for a, its in L.split_transforms(case['items'], list(cuts))],
+                     transforms=[dict(attach=a, items=[({'agg': 'collect'} if it.get('agg') == 'rmw' else it) for it in its])
+                                 for a, its in L.split_transforms(case['items'], list(cuts))],
                      shards=sorted(r['shards']), rr=sorted(r['rr'])))
   return reqs
 
@@ -462,14 +529,25 @@ def neighbours(case, rng):
 
 
 def shrink(case, fails0):
+  try:
+    return _shrink(case, fails0)
+  except Exception:  # pylint: disable=broad-except
+    import sys, traceback
+    traceback.print_exc(file=sys.stderr)
+    return None
+
+
+def _shrink(case, fails0):
   first = fails0(case)
   want = finding(case, first) if first else None
   def fails(c):
     w = fails0(c)
     return w is not None and finding(c, w) == want
-  cur = case
+  cur = json.loads(json.dumps(case))     # no list shared between strategies (the generator reuses the cut vectors)
   # keep the baseline and one failing strategy
-  for i in range(1, len(cur['strategies'])):
+  # prefer a seeded schedule of the deterministic scheduler: its replay does not depend on OS timing
+  order = sorted(range(1, len(cur['strategies'])), key=lambda i: cur['strategies'][i]['s'] != 'sched')
+  for i in order:
     c = dict(cur, strategies=[cur['strategies'][0], cur['strategies'][i]])
     if fails(c):
       cur = c
@@ -490,8 +568,10 @@ def shrink(case, fails0):
       c = copy.deepcopy(cur); del c['items'][i]
       for st in c['strategies']:
         if st['cuts']:
-          del st['cuts'][min(i, len(st['cuts']) - 1)]
+          del st['cuts'][max(i - 1, 0)]         # the cut that attached item i (item 0: the one after it)
       c['strategies'][0]['cuts'] = base_cuts(c['items'])
+      if any(len(st['cuts']) != len(c['items']) - 1 for st in c['strategies']):
+        continue
       if fails(c):
         cur, changed = c, True
         break
